@@ -64,12 +64,13 @@ def gen_cfg(rng, world, fault_rate=0.35):
 
 
 class Actor(object):
-    def __init__(self, world, cfg, router, calls=None):
+    def __init__(self, world, cfg, router, calls=None, shared_from=None):
         from jsonschema import RefResolver
         self.world = world
         self.cfg = cfg
         self.router = router
         self.collab = Collab()
+        self.explicit_base = None
         draft = world["draft"]
         store_urls = list(world.get("store_docs", ())) if cfg.get("use_store", True) else []
         forbidden = store_urls + sorted(METASCHEMA_IDS.values())
@@ -78,9 +79,14 @@ class Actor(object):
             self.transport.set_calls(calls)
         self.cls = build_class(draft, world.get("custom"), self.collab)
         self.fc = build_format_checker(world.get("formats"), self.collab)
-        root = copy.deepcopy(world["root"])
+        if shared_from is None:
+            root = copy.deepcopy(world["root"])
+            store = dict((u, copy.deepcopy(world["docs"][u])) for u in store_urls)
+        else:
+            # same schema *object* and same read-only store documents, separate resolver
+            root = shared_from.root
+            store = dict((u, shared_from.resolver.store[u]) for u in store_urls)
         self.root = root
-        store = dict((u, copy.deepcopy(world["docs"][u])) for u in store_urls)
         handlers = dict((s, self.transport.handler) for s in cfg.get("handler_schemes", ()))
         holder = []
 
@@ -101,8 +107,13 @@ class Actor(object):
                       urljoin_cache=mk(cfg.get("urljoin_cache", "lru"), urljoin),
                       remote_cache=mk(cfg.get("remote_cache", "lru"), rfu))
         idkw = idkw_of(draft)
-        if cfg.get("base_mode") == "explicit" and isinstance(root, dict) and root.get(idkw):
+        if shared_from is not None and shared_from.explicit_base is not None:
+            self.explicit_base = shared_from.explicit_base
+            resolver = RefResolver(self.explicit_base, root, **kwargs)
+        elif (shared_from is None and cfg.get("base_mode") == "explicit"
+                and isinstance(root, dict) and root.get(idkw)):
             base = root.pop(idkw)
+            self.explicit_base = base
             resolver = RefResolver(base, root, **kwargs)
         else:
             resolver = RefResolver.from_schema(root, id_of=self.cls.ID_OF, **kwargs)
